@@ -338,4 +338,4 @@ pub mod benches {
 
 #[cfg(kani)]
 #[path = "/verif/units/kani/leaf_node.rs"]
-mod verif_kani;
+pub(crate) mod verif_kani;
